@@ -237,6 +237,11 @@ def update_connectivity(
         if max_representable < fill_value:
             fill_value = max_representable
 
+    # Entries that refer to an element which is being dropped
+    # (such as the neighbour of a face on the new boundary)
+    # have no new index, and are recorded using the fill value.
+    column_values = numpy.ma.filled(column_values, fill_value)
+
     # We need to preseve the integer dtype,
     # while also accounting for masked values.
     # xarray does not make this easy.
